@@ -164,6 +164,14 @@ pub fn run_c06(ctx: &mut Ctx, _known: &Known) {
             forms.push((format!("of(ident,{}) x{}", n, k), vec![("G".into(), seq.clone()), ("condition".into(), ys(&format!("of(G, {})", n)))], Box::new(move |v| t_of(n, v)), false));
             forms.push((format!("not of(ident,{}) x{}", n, k), vec![("G".into(), seq.clone()), ("condition".into(), ys(&format!("not of(G, {})", n)))], Box::new(move |v| t_not(t_of(n, v))), false));
         }
+        // (c0) all()/of() over an identifier that is a MAPPING: its entries are the operands
+        if k >= 2 {
+            forms.push((format!("all(mapping ident) x{}", k), vec![("G".into(), mapn(entries.clone())), ("condition".into(), ys("all(G)"))], Box::new(|v| t_and(v)), false));
+            for n in 0..=k + 1 {
+                forms.push((format!("of(mapping ident,{}) x{}", n, k), vec![("G".into(), mapn(entries.clone())), ("condition".into(), ys(&format!("of(G, {})", n)))], Box::new(move |v| t_of(n, v)), false));
+                forms.push((format!("not of(mapping ident,{}) x{}", n, k), vec![("G".into(), mapn(entries.clone())), ("condition".into(), ys(&format!("not of(G, {})", n)))], Box::new(move |v| t_not(t_of(n, v))), false));
+            }
+        }
         // (b') a mapping whose entries are of different kinds (regex, number, plain text), written
         //      most-expensive first: still the conjunction in WRITTEN order
         if k >= 2 {
@@ -453,7 +461,9 @@ fn full_parens(c: &Cond) -> String {
 pub fn run_c05(ctx: &mut Ctx, _known: &Known) {
     ctx.exhaustive = true;
     // identifiers: one-field predicates; names include words that begin with keyword letters
-    let names = ["A", "B", "android", "order", "nothing", "allow", "offline", "note", "andy", "orb", "ofx", "allx", "inty", "strx", "fltx", "not_a", "or_b", "and.c"];
+    let names = ["A", "B", "android", "order", "nothing", "allow", "offline", "note", "andy", "orb", "ofx", "allx", "inty", "strx", "fltx", "not_a", "or_b", "and.c",
+        // keywords are lower case only: these are identifiers
+        "OR", "AND", "Not", "NOT", "Or", "aNd", "ALL", "Of", "INT"];
     let mut ids: Vec<(String, Yaml)> = vec![];
     for (i, n) in names.iter().enumerate() {
         ids.push((n.to_string(), map1(&format!("f{}", i % 3), ys("x"))));
@@ -476,6 +486,11 @@ pub fn run_c05(ctx: &mut Ctx, _known: &Known) {
     for n in names.iter().skip(2) {
         all.push(Cond::And(Box::new(Cond::Id(n.to_string())), Box::new(Cond::Not(Box::new(Cond::Id("A".into()))))));
         all.push(Cond::Or(Box::new(Cond::Not(Box::new(Cond::Id(n.to_string())))), Box::new(Cond::Id(n.to_string()))));
+    }
+    for (a, b) in [("OR", "AND"), ("Not", "NOT"), ("Or", "aNd"), ("AND", "OR"), ("NOT", "Not")] {
+        all.push(Cond::Or(Box::new(Cond::Or(Box::new(Cond::Id("A".into())), Box::new(Cond::Id(a.to_string())))), Box::new(Cond::Id(b.to_string()))));
+        all.push(Cond::And(Box::new(Cond::Id(a.to_string())), Box::new(Cond::Not(Box::new(Cond::Id(b.to_string()))))));
+        all.push(Cond::Or(Box::new(Cond::Id(a.to_string())), Box::new(Cond::And(Box::new(Cond::Id(b.to_string())), Box::new(Cond::Id("B".into()))))));
     }
     // random larger conditions
     let extra = budget(ctx, 300, 6000);
@@ -710,6 +725,15 @@ pub fn run_c07(ctx: &mut Ctx, _known: &Known) {
             string_case(ctx, vec![p.to_string()], &i_docs, &i_hays, &masks);
             string_case(ctx, vec![p.to_string(), "zq".to_string()], &i_docs, &i_hays, &masks);
             string_case(ctx, vec![p.to_string(), "izq*".to_string(), "?^zz".to_string()], &i_docs, &i_hays, &masks);
+        }
+    }
+    // a backslash is an ordinary character of the needle, also right before a wildcard
+    {
+        let b_hays: Vec<String> = vec!["C:\\Temp\\a.exe", "C:\\Temp\\", "C:\\Temp*", "C:\\Temp", "x\\bin\\y", "\\bin\\", "\\bin*", "a\\", "a*", "a", "\\", "*", "\\*", "a\\b", "ab\\"].into_iter().map(|s| s.to_string()).collect();
+        let b_docs: Vec<Yaml> = b_hays.iter().map(|h| map1("f", ys(h))).collect();
+        for p in ["C:\\Temp\\*", "*\\bin\\*", "a\\*", "*a\\", "\\*", "*\\", "*\\*", "a\\", "\\", "iC:\\TEMP\\*", "i*\\BIN\\*", "a\\b*", "*\\b"] {
+            string_case(ctx, vec![p.to_string()], &b_docs, &b_hays, &masks);
+            string_case(ctx, vec![p.to_string(), "zq".to_string()], &b_docs, &b_hays, &masks);
         }
     }
     // regexes whose leading / trailing `.*` the optimiser strips: flags and anchors survive
@@ -1062,6 +1086,83 @@ pub fn run_c09(ctx: &mut Ctx, _known: &Known) {
                         if got != want {
                             let dummy = ctx.exchange("tok s:");
                             ctx.violation("oracle", &format!("{} rule `{}: '{}'` ({}) on f = {} held as {}: engine {}, the relation says {}", rn, key, pat, cond, v, ty, got, want), &dummy, &text, true);
+                        }
+                    }
+                }
+            }
+        }
+        // f32 / f64 fields: the relation is about the exact value of the float (an f32 widens exactly)
+        {
+            let fvals32: Vec<f32> = vec![0.1, 0.5, 1.1, -3.3, 16777216.0, 0.3, 2.5, f32::MAX, 1e-10];
+            let fvals64: Vec<f64> = vec![0.1, 0.5, 1.1, -3.3, 0.3, 2.5, 1e300];
+            let consts = ["0.1", "0.5", "1.1", "0.3", "2.5", "-3.3", "16777216.0", "340282346638528860000000000000000000000.0"];
+            for c in consts {
+                let cf: f64 = c.parse().unwrap();
+                for (op, rel) in [("=", "="), (">", ">"), (">=", ">="), ("<", "<"), ("<=", "<=")] {
+                    let text = format!("detection:\n  A:\n    f: '{}{}'\n  condition: A\ntrue_positives: []\ntrue_negatives: []\n", op, c);
+                    let rule = match tau_engine::Rule::from_str(&text) { Ok(r) => r, Err(_) => continue };
+                    for x in &fvals32 {
+                        let mut hm: HashMap<String, f32> = HashMap::new();
+                        hm.insert("f".into(), *x);
+                        let want = holds(rel, (*x as f64).partial_cmp(&cf));
+                        ctx.evaluations += 1;
+                        ctx.nontrivial.insert(hash_str(&format!("f32{}{}{}", op, c, x)));
+                        if rule.matches(&hm) != want {
+                            let dummy = ctx.exchange("tok s:");
+                            ctx.violation("oracle", &format!("`f: '{}{}'` on the f32 {:?} (exactly {:?}): engine {}, the relation says {}", op, c, x, *x as f64, !want, want), &dummy, &text, true);
+                        }
+                    }
+                    for x in &fvals64 {
+                        let mut hm: HashMap<String, f64> = HashMap::new();
+                        hm.insert("f".into(), *x);
+                        let want = holds(rel, x.partial_cmp(&cf));
+                        ctx.evaluations += 1;
+                        if rule.matches(&hm) != want {
+                            let dummy = ctx.exchange("tok s:");
+                            ctx.violation("oracle", &format!("`f: '{}{}'` on the f64 {:?}: engine {}, the relation says {}", op, c, x, !want, want), &dummy, &text, true);
+                        }
+                    }
+                }
+            }
+        }
+        // str(f) == str(g) compares the TEXTS of the two values: floats included
+        {
+            let fl = |x: f64| Yaml::Number(x.into());
+            let vals: Vec<Yaml> = vec![fl(0.0), fl(-0.0), fl(f64::NAN), fl(f64::INFINITY), fl(1.5), fl(2.0), Yaml::Number(2u64.into()), ys("2"), ys("NaN"), ys("0"), ys("-0"), fl(1e21), Yaml::Bool(true), ys("true")];
+            let mut pdocs: Vec<Yaml> = vec![];
+            let mut texts: Vec<(Option<String>, Option<String>)> = vec![];
+            let text_of = |v: &Yaml| -> Option<String> {
+                match v {
+                    Yaml::Number(n) if n.is_u64() => Some(n.as_u64().unwrap().to_string()),
+                    Yaml::Number(n) if n.is_i64() => Some(n.as_i64().unwrap().to_string()),
+                    Yaml::Number(n) => Some(n.as_f64().unwrap().to_string()),
+                    Yaml::String(s) => Some(s.clone()),
+                    Yaml::Bool(b) => Some(b.to_string()),
+                    _ => None,
+                }
+            };
+            for a in &vals {
+                for b in &vals {
+                    pdocs.push(mapn(vec![("f".into(), a.clone()), ("g".into(), b.clone())]));
+                    texts.push((text_of(a), text_of(b)));
+                }
+            }
+            for cond in ["str(f) == str(g)", "not str(f) == str(g)"] {
+                let cs = case(vec![("A".into(), map1("zz", ys("x"))), ("condition".into(), ys(cond))], pdocs.clone(), masks.clone());
+                let (ex, parsed) = run_rule_case(ctx, &cs, false);
+                if let Some(p) = parsed {
+                    if p.load == "ok" {
+                        for mask in [0u64, 15] {
+                            let res = tri_of(&p, mask);
+                            for (j, (ta, tb)) in texts.iter().enumerate() {
+                                ctx.nontrivial.insert(hash_str(&format!("streqf{}{}", cond, j)));
+                                let eq = match (ta, tb) { (Some(x), Some(y)) => x == y, _ => false };
+                                let want = if cond.starts_with("not") { !eq } else { eq };
+                                if (res[j] == "T") != want {
+                                    ctx.violation("oracle", &format!("`{}` (mask {}) on f = {:?}, g = {:?}: engine {}, the texts are {:?} and {:?}", cond, mask, ta, tb, res[j], ta, tb), &ex, &rule_yaml(&cs), true);
+                                    break;
+                                }
+                            }
                         }
                     }
                 }
@@ -1527,6 +1628,12 @@ pub fn run_c10(ctx: &mut Ctx, _known: &Known) {
             mapn(vec![("a[1]".into(), ys("flat")), ("a".into(), Yaml::Sequence(vec![ys("zero")]))]),
             mapn(vec![("a.b.c".into(), ys("flat")), ("a".into(), map1("b", map1("c", ys("deep"))))]),
             mapn(vec![("a.b".into(), map1("c", ys("flat"))), ("a".into(), Yaml::Number(1u64.into()))]),
+            // a plain segment made of digits is a KEY, an indexed segment is an ARRAY index
+            map1("a", Yaml::Sequence(vec![ys("zero"), ys("one")])),
+            map1("a", mapn(vec![("0".into(), ys("key0")), ("1".into(), ys("key1"))])),
+            map1("a", map1("b", Yaml::Sequence(vec![map1("c", ys("deep"))]))),
+            map1("a", map1("b", map1("0", map1("c", ys("deep"))))),
+            map1("a", Yaml::Sequence(vec![Yaml::Sequence(vec![ys("in")]), map1("0", ys("k"))])),
         ];
         let lit_paths: Vec<Vec<(String, Option<usize>)>> = vec![
             vec![("a".into(), None), ("b".into(), None)],
@@ -1534,6 +1641,12 @@ pub fn run_c10(ctx: &mut Ctx, _known: &Known) {
             vec![("a".into(), Some(1))],
             vec![("a".into(), None), ("b".into(), None), ("c".into(), None)],
             vec![("a".into(), None)],
+            vec![("a".into(), None), ("0".into(), None)],
+            vec![("a".into(), None), ("1".into(), None)],
+            vec![("a".into(), None), ("b".into(), None), ("0".into(), None), ("c".into(), None)],
+            vec![("a".into(), None), ("b".into(), Some(0)), ("c".into(), None)],
+            vec![("a".into(), Some(1)), ("0".into(), None)],
+            vec![("a".into(), Some(0)), ("0".into(), None)],
         ];
         for d in &lit_docs {
             for path in &lit_paths {
@@ -1565,7 +1678,22 @@ pub fn run_c10(ctx: &mut Ctx, _known: &Known) {
                     for (n, _) in path.iter().rev() {
                         nested = map1(n, nested);
                     }
-                    for idv in [map1(&key, ys("deep")), nested.clone()] {
+                    // the nested spelling means "some element" when an intermediate value is an array:
+                    // it is the same as the dotted key only where the intermediates are objects
+                    let mut via_array = false;
+                    {
+                        let mut cur = Some(d.clone());
+                        for (n, _) in path.iter().take(path.len() - 1) {
+                            cur = cur.and_then(|c| c.as_mapping().and_then(|m| m.get(ys(n)).cloned()));
+                            if matches!(cur, Some(Yaml::Sequence(_))) {
+                                via_array = true;
+                            }
+                        }
+                    }
+                    for (which, idv) in [map1(&key, ys("deep")), nested.clone()].into_iter().enumerate() {
+                        if which == 1 && via_array {
+                            continue;
+                        }
                         let text = serde_yaml::to_string(&crate::implside::rule_value(&case(vec![("A".into(), idv), ("condition".into(), ys("A"))], vec![], vec![0]))).unwrap_or_default();
                         if let (Ok(rule), Some(m), Some(js)) = (tau_engine::Rule::from_str(&text), d.as_mapping(), crate::suites2::json_of_yaml(d)) {
                             let (a, b) = (rule.matches(m), rule.matches(&js));
@@ -1742,6 +1870,41 @@ pub fn run_c10(ctx: &mut Ctx, _known: &Known) {
                         if (r1[j] == "T") != (r2[j] == "T") {
                             let ry = rule_yaml(&c1);
                             ctx.violation("oracle", &format!("nested `o: {{{}: x}}` and dotted `{}: x` disagree ({} vs {}, mask {}) on document {}", inner, dotted, r1[j], r2[j], masks[0], serde_yaml::to_string(d).unwrap_or_default().replace('\n', " ")), &ex1, &ry, true);
+                        }
+                    }
+                }
+            }
+        }
+    }
+    // a nested mapping with SEVERAL keys over an array of objects: one element has to satisfy all of
+    // them (the block is evaluated per element), plain and negated, plain and optimised
+    {
+        let el = |n: &str, u: &str| mapn(vec![("name".into(), ys(n)), ("user".into(), ys(u))]);
+        let docs2: Vec<(Yaml, bool)> = vec![
+            (map1("procs", Yaml::Sequence(vec![el("cmd.exe", "bob"), el("sh", "root")])), false),
+            (map1("procs", Yaml::Sequence(vec![el("cmd.exe", "root"), el("sh", "bob")])), true),
+            (map1("procs", Yaml::Sequence(vec![el("sh", "root"), el("cmd.exe", "root")])), true),
+            (map1("procs", el("cmd.exe", "root")), true),
+            (map1("procs", el("cmd.exe", "bob")), false),
+            (map1("procs", Yaml::Sequence(vec![map1("name", ys("cmd.exe")), map1("user", ys("root"))])), false),
+            (map1("procs", Yaml::Sequence(vec![])), false),
+        ];
+        let dd: Vec<Yaml> = docs2.iter().map(|(d, _)| d.clone()).collect();
+        for (cond, neg) in [("A", false), ("not A", true)] {
+            for body in [mapn(vec![("name".into(), ys("cmd.exe")), ("user".into(), ys("root"))]), mapn(vec![("user".into(), ys("root")), ("name".into(), ys("cmd*"))]), mapn(vec![("name".into(), ys("?^cmd")), ("user".into(), ys("iROOT"))])] {
+                let c = case(vec![("A".into(), map1("procs", body)), ("condition".into(), ys(cond))], dd.clone(), vec![0, 15, 2, 3]);
+                let (ex, parsed) = run_rule_case(ctx, &c, false);
+                let p = match parsed {
+                    Some(p) if p.load == "ok" => p,
+                    _ => continue,
+                };
+                for m in &p.masks {
+                    for (j, (_, holds_)) in docs2.iter().enumerate() {
+                        ctx.nontrivial.insert(hash_str(&format!("nested2{}{}{}", cond, ex.line.len(), j)));
+                        let want = if neg { !holds_ } else { *holds_ };
+                        if (m.res[j].0 == "T") != want {
+                            ctx.violation("oracle", &format!("`{}` over a two-key nested mapping (mask {}) on {}: engine {}, 'some element satisfies the whole block' gives {}", cond, m.mask, serde_yaml::to_string(&dd[j]).unwrap_or_default().replace('\n', " "), m.res[j].0, want), &ex, &rule_yaml(&c), true);
+                            break;
                         }
                     }
                 }
